@@ -94,6 +94,21 @@ def equal(impl, spec):
     return True, ""
 
 
+def assignment(impl, spec):
+    """A concrete assignment {var name: int} on which the two affine terms differ (all other variable bits 0)."""
+    cache = {}
+    a, b = anf_bits(impl, cache), anf_bits(spec, cache)
+    for i, (x, y) in enumerate(zip(a, b)):
+        if x != y:
+            d = sorted(x[0] ^ y[0])
+            out = {}
+            if x[1] == y[1]:            # constants equal: flip exactly one variable of the symmetric difference
+                n, bit = d[0]
+                out[n] = 1 << bit
+            return out
+    return {}
+
+
 def witness(impl, spec):
     """An input assignment on which impl != spec (both affine): set exactly one variable of the differing set."""
     cache = {}
